@@ -47,7 +47,7 @@ def specialize_source(source, specialize_for, search_in_folders=[]):
             varname, limname = ll.split("//vectorize_over")[-1].split()
             if specialize_for.startswith("cpu"):
                 new_lines.append(
-                    f"for (int {varname}=0; {varname}<{limname}; {varname}++)"
+                    f"for (int {varname}=0; {varname}<({limname}); {varname}++)"
                     + "{ //autovectorized\n"
                 )
             elif specialize_for == "opencl":
@@ -61,7 +61,7 @@ def specialize_source(source, specialize_for, search_in_folders=[]):
                 new_lines.append(
                     f"{varname}=blockDim.x * blockIdx.x + threadIdx.x;"
                     "//autovectorized\n"
-                    f"if ({varname}<{limname})" + "{"
+                    f"if ({varname}<({limname}))" + "{"
                 )
         elif "//end_vectorize" in ll:
             if specialize_for.startswith("cpu"):
